@@ -63,6 +63,7 @@ type Plan struct {
 	Sched     []string     `json:"sched,omitempty"`
 	MaxSteps  int          `json:"maxSteps"`
 	Listeners bool         `json:"listeners,omitempty"`
+	Nonce     bool         `json:"nonce,omitempty"` // every write transaction stores a unique commit marker
 	Note      string       `json:"note,omitempty"`
 	// filled in when a violation is written out
 	Violation *Violation `json:"violation,omitempty"`
@@ -671,6 +672,8 @@ func defaultWeights(prop string) map[string]int {
 		w = map[string]int{"create": 24, "update": 10, "delete": 14, "link": 36, "rc": 16}
 	case "C06":
 		w = map[string]int{"create": 32, "update": 20, "delete": 26, "link": 14, "rc": 6, "deleteWhere": 2}
+	case "conc":
+		w = map[string]int{"create": 36, "update": 30, "delete": 12, "link": 16, "rc": 4, "deleteWhere": 2}
 	case "C07", "C08":
 		w = map[string]int{"create": 32, "update": 24, "delete": 16, "link": 10, "rc": 4, "deleteWhere": 2, "preCommit": 5, "commitAction": 7}
 	}
@@ -712,6 +715,8 @@ func GenPlan(profile, prop string, seed uint64) *Plan {
 		}
 		cfg.BatchRate = []float64{0, 0.3, 0.6, 1}[r.IntN(4)]
 		cfg.Listeners = true
+	case "snap", "conc":
+		return genConcurrent(profile, prop, seed, r)
 	case "integrity":
 		cfg.Tasks = 1
 		cfg.TxPerTask = 3 + r.IntN(12)
@@ -766,5 +771,86 @@ func GenPlan(profile, prop string, seed uint64) *Plan {
 		t.Txs = append(t.Txs, g.genTx())
 	}
 	p.MaxSteps = 40 + 12*p.NumOps()
+	return p
+}
+
+// genConcurrent: writers committing multi-operation transactions, readers whose steps are separated by yields,
+// and (snap profile) one task that snapshots, lets more transactions commit, restores, and asks for the timeline id.
+func genConcurrent(profile, prop string, seed uint64, r *rand.Rand) *Plan {
+	cfg := GenCfg{Profile: profile, Prop: prop, Weights: defaultWeights("conc")}
+	cfg.PValid = []float64{0.9, 0.97}[r.IntN(2)]
+	cfg.MaxOps = 2 + r.IntN(4)
+	cfg.Hostile = r.IntN(6) == 0
+	cfg.BatchRate = []float64{0, 0, 0.3}[r.IntN(3)]
+	cfg.FaultRate = []float64{0, 0.08}[r.IntN(2)]
+	cfg.Faults = []string{"F1", "F7"}
+	g := &gen{r: r, cfg: cfg, shadow: NewModel()}
+	p := &Plan{Profile: profile, Prop: prop, Seed: seed, Nonce: true}
+	nw := 1 + r.IntN(2)
+	if profile == "conc" {
+		nw = 1
+	}
+	for w := 0; w < nw; w++ {
+		tp := TaskPlan{Name: fmt.Sprintf("W%d", w+1)}
+		if w == 0 {
+			tp.Txs = append(tp.Txs, g.prologue())
+		}
+		n := 3 + r.IntN(8)
+		for i := 0; i < n; i++ {
+			tp.Txs = append(tp.Txs, g.genTx())
+		}
+		p.Tasks = append(p.Tasks, tp)
+	}
+	nr := 1 + r.IntN(3)
+	if profile == "conc" {
+		nr = 2 + r.IntN(5)
+	}
+	for k := 0; k < nr; k++ {
+		tp := TaskPlan{Name: fmt.Sprintf("R%d", k+1)}
+		n := 2 + r.IntN(5)
+		for i := 0; i < n; i++ {
+			tp.Txs = append(tp.Txs, TxPlan{Mode: "view", Ops: g.genReads(1 + r.IntN(5))})
+		}
+		p.Tasks = append(p.Tasks, tp)
+	}
+	if profile == "conc" {
+		nh := 1 + r.IntN(3)
+		for k := 0; k < nh; k++ {
+			tp := TaskPlan{Name: fmt.Sprintf("H%d", k+1)}
+			n := 1 + r.IntN(3)
+			for i := 0; i < n; i++ {
+				tp.Txs = append(tp.Txs, TxPlan{Mode: "helper", Ops: g.genHelpers(2 + r.IntN(5))})
+			}
+			p.Tasks = append(p.Tasks, tp)
+		}
+	}
+	if profile == "snap" {
+		tp := TaskPlan{Name: "S"}
+		rounds := 1 + r.IntN(2)
+		for i := 0; i < rounds; i++ {
+			if r.IntN(3) == 0 {
+				tp.Txs = append(tp.Txs, TxPlan{Mode: "timeline"})
+			}
+			kind := pick(r, []string{"file", "file", "stream"})
+			snap := TxPlan{Mode: "snapshot", Arg: kind, N: -1}
+			if kind == "stream" && r.IntN(5) == 0 {
+				snap.N = r.IntN(40000) // F11: writer fails after N bytes
+			}
+			tp.Txs = append(tp.Txs, snap)
+			// let other tasks commit: the snapshot task idles for a few scheduling points
+			tp.Txs = append(tp.Txs, TxPlan{Mode: "idle", N: r.IntN(6)})
+			rs := TxPlan{Mode: "restore", Arg: pick(r, []string{"bytes", "reader", "reader"}), N: -1}
+			if r.IntN(6) == 0 {
+				rs.Args = []string{"fail"} // F11: reader fails mid-stream
+				rs.Arg = "reader"
+			}
+			tp.Txs = append(tp.Txs, rs)
+			if r.IntN(4) != 0 {
+				tp.Txs = append(tp.Txs, TxPlan{Mode: "timeline"})
+			}
+		}
+		p.Tasks = append(p.Tasks, tp)
+	}
+	p.MaxSteps = 120 + 16*p.NumOps()
 	return p
 }
